@@ -176,6 +176,22 @@ def m_iter(by_value):
     return f
 
 
+def m_into_iter_any(I, st, fn, ce, args, line, depth, dest_ty, may_unwind):
+    """IntoIterator::into_iter on whatever the model knows: `&container` / `&mut container` iterate by reference, a
+    container value by value, an iterator is returned unchanged"""
+    a = args[0]
+    if is_iter(a):
+        return [("ret", a, st)]
+    v = as_view(I, st, a)
+    if v is None:
+        return None
+    # a view value stands both for `&[T]` and for an owned Vec<T>/[T; N]: the static Self type decides
+    targs = [t for t in ce.get("args", []) if isinstance(t, dict) and t.get("k") not in ("region", "const")]
+    selft = targs[0] if targs else None
+    by_ref = a[0] == "ref" or (selft is not None and selft.get("k") == "ref") or selft is None
+    return [("ret", _iter("ref" if by_ref else "val", [v, v[4][0]]), st)]
+
+
 def m_enumerate(I, st, fn, ce, args, line, depth, dest_ty, may_unwind):
     if not is_iter(args[0]):
         return None
@@ -631,6 +647,74 @@ def m_ptr_eq(I, st, fn, ce, args, line, depth, dest_ty, may_unwind):
     return [("ret", Const(a == b), st)]
 
 
+def m_range_next(I, st, fn, ce, args, line, depth, dest_ty, may_unwind):
+    """<Range<usize> as Iterator>::next on a range whose bounds are literals"""
+    a = args[0]
+    if a[0] != "ref":
+        return None
+    r = I.load(st, a[1])
+    if not (r[0] == "agg" and r[2].endswith("::Range") and len(r[4]) == 2 and all(x[0] == "const" and isinstance(x[1], int) for x in r[4])):
+        return None
+    lo, hi = r[4][0][1], r[4][1][1]
+    if lo >= hi:
+        return [("ret", _opt(0, []), st)]
+    I.store(st, a[1], ("agg", r[1], r[2], r[3], (Const(lo + 1), r[4][1])))
+    return [("ret", _opt(1, [Const(lo)]), st)]
+
+
+def m_mu_uninit(I, st, fn, ce, args, line, depth, dest_ty, may_unwind):
+    if not getattr(I, "model_vecs", False):
+        return None
+    return [("ret", ("agg", "adt", "std::mem::MaybeUninit", 0, ()), st)]
+
+
+def m_mu_write(I, st, fn, ce, args, line, depth, dest_ty, may_unwind):
+    a = args[0]
+    if not getattr(I, "model_vecs", False) or a[0] != "ref":
+        return None
+    loc = a[1]
+    if not (loc[0] == "O" and loc[1] in I.lists):
+        return None
+    I.emit(st, {"k": "SLOT_WRITE", "slot": loc_s(loc), "val": args[1]}, fn, line)
+    st.heap[loc] = ("agg", "adt", "std::mem::MaybeUninit", 0, (args[1],))
+    return [("ret", Ref(loc), st)]
+
+
+def m_mu_assume_init(I, st, fn, ce, args, line, depth, dest_ty, may_unwind):
+    v = args[0]
+    if v[0] == "agg" and v[2] == "std::mem::MaybeUninit":
+        if not v[4]:
+            if dest_ty is not None and dest_ty.get("k") == "array" and getattr(I, "model_vecs", False):
+                # `MaybeUninit::<[MaybeUninit<X>; N]>::uninit().assume_init()`: an array of N uninitialised slots
+                ln = str(dest_ty.get("len", "")).strip()
+                n = I.const_params.get(ln)
+                if n is None and ln.split("_")[0].isdigit():
+                    n = int(ln.split("_")[0])
+                if n is not None and n <= 8:
+                    return [("ret", make_list(I, st, [("agg", "adt", "std::mem::MaybeUninit", 0, ())] * n), st)]
+            I.emit(st, {"k": "ASSUME_INIT_UNINIT"}, fn, line)
+            return [("ret", interp.UNINIT, st)]
+        return [("ret", v[4][0], st)]
+    return None
+
+
+def m_array_map(I, st, fn, ce, args, line, depth, dest_ty, may_unwind):
+    v = as_view(I, st, args[0])
+    if v is None:
+        return None
+    states = [([], st)]
+    for x in items_of(I, st, v):
+        nxt = []
+        for acc, s in states:
+            for kind, val, s2 in I.call_value(s, args[1], [x], fn, line, depth, None, may_unwind):
+                if kind == "ret":
+                    nxt.append((acc + [val], s2))
+                else:
+                    return None
+        states = nxt
+    return [("ret", make_list(I, s, acc), s) for acc, s in states]
+
+
 def iter_len(it):
     kind = it[2]
     if kind in ("ref", "val"):
@@ -697,6 +781,8 @@ def install():
     M["core::slice::iter::<impl std::iter::IntoIterator for &'a [T]>::into_iter"] = m_iter(False)
     M["<&'a std::vec::Vec<T, A> as std::iter::IntoIterator>::into_iter"] = m_iter(False)
     M["<std::vec::Vec<T, A> as std::iter::IntoIterator>::into_iter"] = m_iter(True)
+    M["std::iter::IntoIterator::into_iter"] = m_into_iter_any
+    M["std::iter::Iterator::next"] = m_next
     M["std::iter::Iterator::enumerate"] = m_enumerate
     M["std::iter::Iterator::take"] = m_take
     M["std::iter::Iterator::skip"] = m_skip
@@ -730,6 +816,13 @@ def install():
     for nm in ("sort_by_key", "sort_unstable_by_key", "sort_by_cached_key"):
         M["core::slice::<impl [T]>::" + nm] = m_sort_by_key
         M["std::slice::<impl [T]>::" + nm] = m_sort_by_key
+    M["<std::ops::Range<usize> as std::iter::Iterator>::next"] = m_range_next
+    M["std::iter::range::<impl std::iter::Iterator for std::ops::Range<A>>::next"] = m_range_next
+    M["std::mem::MaybeUninit::<T>::uninit"] = m_mu_uninit
+    M["std::mem::MaybeUninit::<T>::write"] = m_mu_write
+    M["std::mem::MaybeUninit::<T>::assume_init"] = m_mu_assume_init
+    M["std::array::<impl [T; N]>::map"] = m_array_map
+    M["core::array::<impl [T; N]>::map"] = m_array_map
     M["std::iter::ExactSizeIterator::len"] = m_iter_len
     M["std::collections::HashSet::<T>::with_capacity"] = m_set_new
     M["std::collections::HashSet::<T, S, A>::insert"] = m_set_insert
